@@ -107,7 +107,7 @@ def real_cases(ctx, rng, nkeys, nflip):
             # the aux bytes, the message and the public key have been through the library's OTHER tagged hashes before (as when a
             # taproot address was derived from them): every one-argument hash_* helper of buidl.hash is asked about them first
             import buidl.hash as BH
-            for nm in sorted(dir(BH)):
+            for nm in sorted(dir(BH), reverse=True):      # (the BIP340 tags come last)
                 fn_ = getattr(BH, nm)
                 if nm.startswith("hash_") and callable(fn_):
                     for x_ in (aux, m, pk.point.xonly(), aux + m):
